@@ -113,7 +113,10 @@ def check_layout(ctx, rule, res, only_functions=None, label="", row_order=None):
                 continue
             n += 1
             desc = repr(e["shape"])
-            if RESHAPE_OK.match(desc):
+            if e.get("how") == "as_strided":
+                ctx.violated(rule, kk, f"`{e['text'][:80]}` re-reads the row-major block of values through the strides {e.get('strides')}: it equals view(shape) only for the contiguous strides of that "
+                             "shape — for a non-contiguous key (a transposed weight: shape (2, 3), strides (1, 2)) entry (i, j) receives the value that belongs to another entry", e["loc"])
+            elif RESHAPE_OK.match(desc):
                 ctx.ok(rule, kk, f"row-major (un)flattening {desc}", e["loc"], nontrivial=False)
             else:
                 ctx.undecided(rule, kk, f"reshape to {desc} is not one of the recognised row-major (un)flattening forms", e["loc"])
